@@ -28,7 +28,24 @@ type File struct {
 	Name string // base name
 	Src  []byte
 	AST  *ast.File
+
+	endsOnce sync.Once
+	ends     map[int]int
+	endSet   map[int]bool
 }
+
+func (f *File) computeEnds() {
+	f.endsOnce.Do(func() {
+		f.ends = TokenEnds(f.Src)
+		f.endSet = map[int]bool{}
+		for _, e := range f.ends {
+			f.endSet[e] = true
+		}
+	})
+}
+
+func (f *File) tokenEnds() map[int]int    { f.computeEnds(); return f.ends }
+func (f *File) tokenEndSet() map[int]bool { f.computeEnds(); return f.endSet }
 
 // Pkg is a parsed and type-checked package.
 type Pkg struct {
@@ -81,6 +98,14 @@ func (mapImporter) Import(path string) (*types.Package, error) {
 	if p, ok := impKnown[path]; ok && p != nil && p.Complete() {
 		return p, nil
 	}
+	if strings.HasPrefix(path, "stresslib/") {
+		// user packages of the stress corpus that share their name with a standard package
+		p, err := checkStressLib(path)
+		if err == nil {
+			impKnown[path] = p
+		}
+		return p, err
+	}
 	if srcImp == nil {
 		srcImp = importer.ForCompiler(srcFset, "source", nil)
 	}
@@ -89,6 +114,38 @@ func (mapImporter) Import(path string) (*types.Package, error) {
 		impKnown[path] = p
 	}
 	return p, err
+}
+
+// StressLibs lists the user packages under corpus/stress/_lib (import path stresslib/<name>).
+func StressLibs() []string {
+	ents, _ := os.ReadDir(filepath.Join(StressDir(), "_lib"))
+	var out []string
+	for _, e := range ents {
+		if e.IsDir() {
+			out = append(out, e.Name())
+		}
+	}
+	sort.Strings(out)
+	return out
+}
+
+func checkStressLib(path string) (*types.Package, error) {
+	dir := filepath.Join(StressDir(), "_lib", strings.TrimPrefix(path, "stresslib/"))
+	files, _ := filepath.Glob(filepath.Join(dir, "*.go"))
+	if len(files) == 0 {
+		return nil, fmt.Errorf("no stress library %s", path)
+	}
+	sort.Strings(files)
+	var asts []*ast.File
+	for _, fn := range files {
+		f, err := parser.ParseFile(Fset, fn, nil, parser.ParseComments)
+		if err != nil {
+			return nil, err
+		}
+		asts = append(asts, f)
+	}
+	conf := types.Config{Importer: importer.ForCompiler(srcFset, "source", nil), Sizes: Sizes}
+	return conf.Check(path, Fset, asts, nil)
 }
 
 func remember(p *packages.Package, seen map[*packages.Package]bool) {
